@@ -52,15 +52,17 @@ def hash_parts(q, t):
         opf("poolmap", ["harness/cont_hash.cpp"], q, t, bin="cont_poolmap", cflags=["-DKIND=2"]),
     ]
 
+HASHKEYS = opf("hashkeys", ["harness/c02_hashkeys.cpp"], {"cases": 150000, "maxsize": 30}, {"cases": 1500000, "maxsize": 60, "workers": 16})
+
 PROPS["C02"] = {
     "level": "exploration",
     "level_text": "random operation histories over three tables of different (generated) capacities with a controllable hash (all keys colliding, 2, 3, 7 buckets, identity) against an insertion-ordered reference map, full comparison after every operation",
-    "level_note": "trusted: the reference model in harness/cont_hash.cpp, ASan; the hash of the key type is harness-defined (found by ADL) so collisions are controlled; the library's own hash() overloads are exercised by the separate 'hashkeys' part",
+    "level_note": "trusted: the reference model in harness/cont_hash.cpp, ASan; the hash of the key type is harness-defined (found by ADL) so collisions are controlled; the library's own hash() overloads (int, int64, const void*, String) are exercised by the 'hashkeys' part (harness/c02_hashkeys.cpp) with table capacities 1, 2, 3, 7, 16 and default",
     "technique": "stateful property-based testing against a reference insertion-ordered map with generated table capacities and a controllable hash",
     "rule": "opfuzz: histories of 2..2*size ops over three HashMap / HashSet / PoolMap objects with capacities drawn from {0,1,2,3,4,7,16,500,default} and hash modulus from {1,2,3,7,identity}; after every op size/isEmpty/iteration both ways/front/back/find+contains for the whole key universe/returned iterators/element addresses/held iterators are compared with the model. "
             "Non-trivial = (a bucket chain reached length >=3 AND an element was removed from the middle of such a chain) OR a swap/assignment between two non-empty tables of different capacity; distinct by case text hash.",
     "assumptions": ["a payload field that is not part of key equality shows whether an existing entry was touched"],
-    "parts": hash_parts({"cases": 50000, "maxsize": 30}, {"cases": 500000, "maxsize": 120, "workers": 16}),
+    "parts": hash_parts({"cases": 50000, "maxsize": 30}, {"cases": 500000, "maxsize": 120, "workers": 16}) + [HASHKEYS],
 }
 
 
